@@ -401,3 +401,137 @@ def f_string_methods():
         'abc'.center(7, '*'), 'abc'.ljust(5) + '|', '7'.zfill(3), 'Hello'.count('l'), 'x'.join(['a']), ''.join(reversed('abc')), 'abc'[::-1], \
         'line1\nline2\r\nline3'.splitlines(), 'line1\nline2\n'.splitlines(True), 'é'.encode('utf-8').hex(), '%5s|%-5s|%05d|%x|%o|%e' % ('a', 'b', 42, 255, 8, 1234.5), \
         '{:>5}|{:<5}|{:^5}|{:05.1f}|{:,}'.format('a', 'b', 'c', 3.14159, 1234567), repr('it\'s'), str(None), str(1.0), str(True), 'a' < 'b', 'a' * 0
+
+
+import operator
+
+_MISSING = object()
+SHARED_LIST = []
+SIGN_TABLE = (
+    ('neg', lambda lo, hi: hi < 0),
+    ('zero', lambda lo, hi: lo == hi == 0),
+    ('pos', lambda lo, hi: lo > 0),
+)
+
+
+def f_sentinels_and_operator():
+    cache = {}
+
+    def lookup(k, compute):
+        got = cache.get(k, _MISSING)
+        if got is _MISSING:
+            got = cache[k] = compute(k)
+        return got
+    calls = []
+
+    def compute(k):
+        calls.append(k)
+        return None if k == 'n' else k * 2
+    a = [lookup('a', compute), lookup('a', compute), lookup('n', compute), lookup('n', compute)]
+    SHARED_LIST.append(len(SHARED_LIST))
+    d = {}
+    d.setdefault('x', {})['y'] = 1
+    return a, calls, _MISSING is _MISSING, list(SHARED_LIST), d, operator.ge(2, 1), operator.lt(2, 1), \
+        [op(3, 3) for op in (operator.ge, operator.gt, operator.le, operator.lt, operator.eq, operator.ne)], \
+        [name for name, test in SIGN_TABLE if test(-2, -1)], [name for name, test in SIGN_TABLE if test(0, 0)]
+
+
+# ---- wrappers and table-driven arms for the specialiser (sa/specialise.py): g_* are specialised, then both versions are run ----
+class Limits:
+    def __init__(self, lo, hi):
+        self.lo, self.hi = lo, hi
+        self.seen = []
+
+    def get_lo(self, col):
+        self.seen.append(('lo', col))
+        return self.lo
+
+    def get_hi(self, col):
+        self.seen.append(('hi', col))
+        return self.hi
+
+    def flag_lo(self, col, v):
+        self.seen.append(('flag_lo', col, v))
+
+    def flag_hi(self, col, v):
+        self.seen.append(('flag_hi', col, v))
+
+    def g_check_lo(self, col, bound, mode='closed', detect=False):
+        return self._check(col, bound, mode, detect, self.get_lo, (operator.ge, operator.gt), self.flag_lo)
+
+    def g_check_hi(self, col, bound, mode='closed', detect=False):
+        return self._check(col, bound, mode, detect, self.get_hi, (operator.le, operator.lt), self.flag_hi)
+
+    def _check(self, col, bound, mode, detect, getter, comparisons, flagger):
+        if bound is None:
+            return True
+        actual = getter(col)
+        closed, strict = comparisons
+        if mode == 'closed':
+            result = closed(actual, bound)
+        else:
+            result = strict(actual, bound)
+        if detect and not result:
+            flagger(col, bound)
+        return result
+
+    def g_check_len(self, col, bound, detect=False):
+        return self._check_kind(col, bound, detect, 'lo')
+
+    def _check_kind(self, col, bound, detect, kind, slack=0):
+        is_lo = kind == 'lo'
+        if is_lo:
+            actual = self.get_lo(col)
+        else:
+            actual = self.get_hi(col)
+        result = actual >= bound - slack if is_lo else actual <= bound + slack
+        if detect and not result:
+            (self.flag_lo if is_lo else self.flag_hi)(col, bound)
+        return result
+
+    def g_sign(self, col, sign):
+        lo, hi = self.get_lo(col), self.get_hi(col)
+        for name, test in SIGN_TABLE:
+            if sign == name:
+                result = test(lo, hi)
+                break
+        else:
+            result = None
+        return result
+
+    def g_sign_local_table(self, col, sign):
+        lo, hi = self.get_lo(col), self.get_hi(col)
+        tests = (('neg', lambda: hi < 0), ('pos', lambda: lo > 0))
+        for name, test in tests:
+            if sign == name:
+                return test()
+        return 'unknown'
+
+    def g_lambda_args(self, col, bound):
+        return self._with(lambda: self.get_lo(col), operator.ge, lambda v: self.flag_lo(col, v), bound)
+
+    def _with(self, get, within, flag, bound):
+        actual = get()
+        result = within(actual, bound)
+        if not result:
+            flag(bound)
+        return result
+
+    def g_rebound_param(self, col, extra=None):
+        return self._rebinding(col, extra, 'x')
+
+    def _rebinding(self, col, extra, tag):
+        extra = extra or []
+        tag = tag + '!'
+        return [col, tag] + list(extra)
+
+
+SPECIALISE_CASES = [
+    ('g_check_lo', [('c', 1), ('c', 2), ('c', 2, 'open'), ('c', 3, 'closed', True), ('c', None)]),
+    ('g_check_hi', [('c', 9), ('c', 5), ('c', 5, 'open'), ('c', 3, 'open', True)]),
+    ('g_check_len', [('c', 2), ('c', 3, True)]),
+    ('g_sign', [('c', 'neg'), ('c', 'zero'), ('c', 'pos'), ('c', 'other')]),
+    ('g_sign_local_table', [('c', 'neg'), ('c', 'pos'), ('c', 'other')]),
+    ('g_lambda_args', [('c', 1), ('c', 7)]),
+    ('g_rebound_param', [('c',), ('c', ['e'])]),
+]
